@@ -138,6 +138,7 @@ def build(variant, outdir):
     gen_header(incdir)
     cov = variant.startswith("cov")
     asan = variant.endswith("-asan")
+    omit = variant.endswith("-omit")  # ALWAYS()/NEVER() hard-wired (h3Assert.h H3_OMIT_AUXILIARY_SAFETY_CHECKS): thorough-tier slice
     tp = variant.endswith("-tp")      # gcc + -fsanitize-coverage=trace-pc: preemption points in code from the shipped compiler
     prof = variant.endswith("-prof")  # development aid: clang source-based coverage of the simulated copy (tools/srccov.py)
     dbg = variant.endswith("-dbg")   # same as cov but WITHOUT -DNDEBUG (assert-enabled builds are legitimate deployments)
@@ -149,8 +150,14 @@ def build(variant, outdir):
     simflags = ["-DH3_ALLOC_PREFIX=h3sim_"] + san
     refflags = list(san)
     if dbg:
-        simflags.append("-UNDEBUG")
-        refflags.append("-UNDEBUG")
+        # the assert-enabled slice is also the strict-C99 slice (the project declares c_std_99): code selected by
+        # __STDC_VERSION__ (C11 thread-local storage, atomics) takes its C99 fallback here, its C11 form in the
+        # main builds
+        simflags += ["-UNDEBUG", "-std=c99"]
+        refflags += ["-UNDEBUG", "-std=c99"]
+    if omit:
+        simflags.append("-DH3_OMIT_AUXILIARY_SAFETY_CHECKS=1")
+        refflags.append("-DH3_OMIT_AUXILIARY_SAFETY_CHECKS=1")
     if cov:
         simflags += ["-fsanitize-coverage=trace-pc-guard,pc-table", "-fno-pic"]
         refflags += ["-fno-pic"]
